@@ -2,7 +2,8 @@
    resumption"): what <resume h/> carries, and what the count held on the Client is
    after a resumed session and after a newly enabled one. *)
 From Coq Require Import List ZArith NArith Bool.
-From XV Require Import Lib.Sx Model.Session Model.SessionSpec Proofs.SessionSpecP.
+From Coq Require Import Lia.
+From XV Require Import Lib.Sx Model.Session Model.SessionSpec Proofs.SessionSpecP Proofs.SessionSmP.
 Import ListNotations.
 Open Scope N_scope.
 
@@ -195,12 +196,200 @@ Proof.
   pose proof (connect_resume_content cfg (k_dial c) (k_tls c) p (k_script c)) as Hr.
   pose proof (connect_nobind cfg (k_dial c) (k_tls c) p (k_script c)) as Hn.
   pose proof (connect_zero cfg (k_dial c) (k_tls c) p (k_script c)) as Hz.
+  pose proof (connect_outcome cfg (k_dial c) (k_tls c) p (k_script c)) as Ho. cbn zeta in Ho.
   unfold res, outs, pst in *.
   destruct (connect cfg (k_dial c) (k_tls c) p (k_script c)) as [[w r] p1]. cbn [fst snd] in *.
-  cbn [hist_ok]. split; [|split; [|split]].
+  cbn [hist_ok]. split; [|split; [|split; [|split; [|split]]]].
   - intros prev h H. destruct (Hr prev h H) as (H1 & H2 & _). split; assumption.
   - intros Hok Hnb. subst r. destruct (Hn eq_refl Hnb) as [Hi Hs].
     cbn [add_inbound p_inbound p_sm_id]. rewrite Hi. split; [reflexivity|exact Hs].
   - intros Hok He. subst r. cbn [add_inbound p_inbound]. rewrite (Hz eq_refl He). reflexivity.
+  - intros Hok Hb Hne. subst r. cbn [add_inbound p_sm_id].
+    destruct Ho as [[Hd _]|[(_ & _ & _ & _ & _ & He)|(_ & _ & _ & Hnb & _)]]; [exact Hd|contradiction|congruence].
+  - intros Hne. destruct r as [|ce pm]; [congruence|].
+    destruct Ho as [[Hd [Hi|[Hp Hi]]]|[(_ & _ & _ & Hok & _)|(H1 & H2 & _)]].
+    + right. split; assumption.
+    + left. split; [congruence|exact Hi].
+    + discriminate.
+    + left. split; assumption.
   - apply IH.
+Qed.
+
+(* ---------- the count of <resume/> is the number of stanzas received on the session ---------- *)
+(* the invariant: whenever an id is held, the count held with it is the session's count [a] *)
+Lemma run_conns_counts cfg cs : forall p a,
+  (p_sm_id p <> [] -> p_inbound p = a) ->
+  forall i w r p2 prev h ai,
+    nth_error (run_conns cfg p cs) i = Some (w, r, p2) ->
+    nth_error (session_counts a cs (run_conns cfg p cs)) i = Some ai ->
+    In (RResume prev h) (reqs w) -> h = ai.
+Proof.
+  induction cs as [|c cs IH]; intros p a Hinv i w r p2 prev h ai Hn Ha Hin.
+  { destruct i; discriminate. }
+  cbn [run_conns] in Hn, Ha.
+  pose proof (connect_resume_content cfg (k_dial c) (k_tls c) p (k_script c)) as Hr.
+  pose proof (connect_outcome cfg (k_dial c) (k_tls c) p (k_script c)) as Ho. cbn zeta in Ho.
+  unfold res, outs, pst in *.
+  destruct (connect cfg (k_dial c) (k_tls c) p (k_script c)) as [[w0 r0] p1]. cbn [fst snd] in *.
+  cbn [session_counts] in Ha.
+  destruct i as [|i].
+  - cbn in Hn, Ha. inversion Hn; subst. inversion Ha; subst.
+    destruct (Hr prev h Hin) as (_ & Hh & Hne). rewrite Hh. apply Hinv. exact Hne.
+  - cbn [nth_error] in Hn, Ha.
+    eapply (IH _ _ _ i w r p2 prev h ai Hn Ha Hin). Unshelve.
+    (* the invariant after this connection *)
+    destruct r0 as [|ce pm].
+    + cbn [add_inbound p_sm_id p_inbound].
+      destruct Ho as [[Hd _]|[(_ & Hz & _ & _ & Hb & _)|(H1 & H2 & _ & Hnb & _)]].
+      * intros Hne. congruence.
+      * intros _. rewrite Hb, Hz. reflexivity.
+      * intros Hne. rewrite Hnb, H2. rewrite H1 in Hne. rewrite (Hinv Hne). reflexivity.
+    + destruct Ho as [[Hd _]|[(_ & _ & _ & Hok & _)|(H1 & H2 & _)]].
+      * intros Hne. congruence.
+      * discriminate.
+      * intros Hne. rewrite H2. rewrite H1 in Hne. exact (Hinv Hne).
+Qed.
+
+(* ---------- C11 over histories ---------- *)
+Lemma run_conns_hist11 cfg cs : forall p, hist11 p cs (run_conns cfg p cs).
+Proof.
+  induction cs as [|c cs IH]; intros p; [exact I|].
+  cbn [run_conns].
+  pose proof (connect_resume_content cfg (k_dial c) (k_tls c) p (k_script c)) as Hr.
+  pose proof (connect_outcome cfg (k_dial c) (k_tls c) p (k_script c)) as Ho. cbn zeta in Ho.
+  unfold res, outs, pst in *.
+  destruct (connect cfg (k_dial c) (k_tls c) p (k_script c)) as [[w r] p1]. cbn [fst snd] in *.
+  cbn [hist11]. split; [|split].
+  - intros prev h H. destruct (Hr prev h H) as (H1 & H2 & H3). repeat split; assumption.
+  - exists p1. split; [destruct r; reflexivity|exact Ho].
+  - apply IH.
+Qed.
+
+(* position i of a history: the state before it, and the rest of the history as a history of its own *)
+Lemma run_conns_nth cfg : forall i cs p x,
+  nth_error (run_conns cfg p cs) i = Some x ->
+  exists pi c, nth_error cs i = Some c /\
+    x = (let '(w, r, p1) := connect cfg (k_dial c) (k_tls c) pi (k_script c) in
+         (w, r, match r with Ok => add_inbound p1 (k_traffic c) | _ => p1 end)) /\
+    forall j, nth_error (run_conns cfg p cs) (S i + j) = nth_error (run_conns cfg (snd x) (skipn (S i) cs)) j.
+Proof.
+  induction i as [|i IH]; intros cs p x H.
+  - destruct cs as [|c cs]; [discriminate|]. cbn [run_conns] in *.
+    destruct (connect cfg (k_dial c) (k_tls c) p (k_script c)) as [[w r] p1] eqn:E.
+    cbn in H. inversion H; subst x. exists p, c. split; [reflexivity|]. split.
+    + rewrite E. reflexivity.
+    + intros j. reflexivity.
+  - destruct cs as [|c cs]; [discriminate|]. cbn [run_conns] in *.
+    destruct (connect cfg (k_dial c) (k_tls c) p (k_script c)) as [[w r] p1].
+    cbn [nth_error] in H. destruct (IH _ _ _ H) as (pi & c' & H1 & H2 & H3).
+    exists pi, c'. split; [exact H1|]. split; [exact H2|]. intros j. exact (H3 j).
+Qed.
+
+Lemma run_conns_resume_nonempty cfg cs p i w r p2 h :
+  nth_error (run_conns cfg p cs) i = Some (w, r, p2) -> ~ In (RResume [] h) (reqs w).
+Proof.
+  intros H Hin. destruct (run_conns_nth cfg i cs p _ H) as (pi & c & _ & Hx & _).
+  pose proof (connect_resume_content cfg (k_dial c) (k_tls c) pi (k_script c) [] h) as Hr.
+  unfold outs in Hr. destruct (connect cfg (k_dial c) (k_tls c) pi (k_script c)) as [[w0 r0] p1].
+  inversion Hx; subst. destruct (Hr Hin) as (H1 & _ & H3). congruence.
+Qed.
+
+Lemma nth_skipn {A} (l : list A) : forall n k, nth_error (skipn n l) k = nth_error l (n + k).
+Proof. induction l as [|x l IH]; intros [|n] k; try reflexivity; [destruct k; reflexivity|apply IH]. Qed.
+
+(* an id that is not the one held can only be presented after the server has issued it *)
+Lemma never_again cfg id : forall cs p j w r p2 h,
+  p_sm_id p <> id ->
+  nth_error (run_conns cfg p cs) j = Some (w, r, p2) -> In (RResume id h) (reqs w) ->
+  exists k c, (k < j)%nat /\ nth_error cs k = Some c /\ issued (k_script c) id.
+Proof.
+  induction cs as [|c cs IH]; intros p j w r p2 h Hne Hn Hin.
+  { destruct j; discriminate. }
+  pose proof (run_conns_resume_nonempty cfg (c :: cs) p j w r p2 h Hn) as Hnon.
+  cbn [run_conns] in Hn.
+  pose proof (connect_resume_content cfg (k_dial c) (k_tls c) p (k_script c)) as Hr.
+  pose proof (connect_outcome cfg (k_dial c) (k_tls c) p (k_script c)) as Ho. cbn zeta in Ho.
+  unfold res, outs, pst in *.
+  destruct (connect cfg (k_dial c) (k_tls c) p (k_script c)) as [[w0 r0] p1]. cbn [fst snd] in *.
+  destruct j as [|j].
+  - cbn in Hn. inversion Hn; subst. destruct (Hr id h Hin) as (H1 & _). congruence.
+  - cbn [nth_error] in Hn.
+    set (p2' := match r0 with Ok => add_inbound p1 (k_traffic c) | Err _ _ => p1 end) in *.
+    assert (Hid : p_sm_id p2' = p_sm_id p1) by (unfold p2'; destruct r0; reflexivity).
+    assert (Hcase : p_sm_id p2' <> id \/ issued (k_script c) id).
+    { destruct Ho as [[Hd _]|[(Hi & _)|(H1 & _)]].
+      - left. rewrite Hid, Hd. intros <-. exact (Hnon Hin).
+      - destruct (list_eq_dec N.eq_dec (p_sm_id p1) id) as [<-|Hd]; [right; exact Hi|left; congruence].
+      - left. congruence. }
+    destruct Hcase as [Hc|Hc].
+    + destruct (IH p2' j w r p2 h Hc Hn Hin) as (k & c' & Hk & Hck & Hi).
+      exists (S k), c'. split; [lia|]. split; [exact Hck|exact Hi].
+    + exists O, c. split; [lia|]. split; [reflexivity|exact Hc].
+Qed.
+
+(* connection i presented [id] and the session was not continued (the negotiation failed, or a new
+   session was bound): [id] is not presented on any later connection j unless the server itself
+   issued that very string again on some connection i <= k < j *)
+Lemma stale_not_presented_again cfg cs p i j id h h' wi ri pi wj rj pj :
+  nth_error (run_conns cfg p cs) i = Some (wi, ri, pi) -> In (RResume id h) (reqs wi) ->
+  (ri <> Ok \/ has_bindb wi = true) ->
+  (i < j)%nat ->
+  nth_error (run_conns cfg p cs) j = Some (wj, rj, pj) -> In (RResume id h') (reqs wj) ->
+  exists k c, (i <= k < j)%nat /\ nth_error cs k = Some c /\ issued (k_script c) id.
+Proof.
+  intros Hi Hini Hnot Hlt Hj Hinj.
+  pose proof (run_conns_resume_nonempty cfg cs p i wi ri pi h Hi) as Hnon.
+  destruct (run_conns_nth cfg i cs p _ Hi) as (q & c & Hc & Hx & Hrest).
+  pose proof (connect_outcome cfg (k_dial c) (k_tls c) q (k_script c)) as Ho. cbn zeta in Ho.
+  unfold res, outs, pst in *.
+  destruct (connect cfg (k_dial c) (k_tls c) q (k_script c)) as [[w0 r0] p1]. cbn [fst snd] in *.
+  inversion Hx; subst wi ri pi. clear Hx.
+  set (p2 := match r0 with Ok => add_inbound p1 (k_traffic c) | Err _ _ => p1 end) in *.
+  assert (Hid : p_sm_id p2 = p_sm_id p1) by (unfold p2; destruct r0; reflexivity).
+  assert (Hcase : p_sm_id p2 <> id \/ issued (k_script c) id).
+  { destruct Ho as [[Hd _]|[(Hiss & _)|(_ & _ & _ & Hnb & Hres)]].
+    - left. rewrite Hid, Hd. intros <-. exact (Hnon Hini).
+    - destruct (list_eq_dec N.eq_dec (p_sm_id p1) id) as [<-|Hd]; [right; exact Hiss|left; congruence].
+    - exfalso. destruct Hnot as [Hnot|Hnot]; [|congruence].
+      apply Hnot. apply Hres. exists id, h. exact Hini. }
+  destruct Hcase as [Hcase|Hcase].
+  - replace j with (S i + (j - S i))%nat in Hj by lia. rewrite Hrest in Hj. cbn [snd] in Hj.
+    destruct (never_again cfg id _ _ _ _ _ _ _ Hcase Hj Hinj) as (k & c' & Hk & Hck & Hiss).
+    exists (S i + k)%nat, c'. split; [lia|]. split; [|exact Hiss].
+    rewrite nth_skipn in Hck. exact Hck.
+  - exists i, c. split; [lia|]. split; [exact Hc|exact Hcase].
+Qed.
+
+(* ---------- a confirmed resumption keeps the whole state ---------- *)
+Lemma connect_resumed_state cfg dial tls p s :
+  res (connect cfg dial tls p s) = Ok -> no_bind (outs (connect cfg dial tls p s)) ->
+  exists sec tlsen, pst (connect cfg dial tls p s) = set_flags (with_session p) sec tlsen.
+Proof.
+  unfold connect. destruct (negb dial); [discriminate|].
+  destruct (read_header s) as [[id s1]|]; [|discriminate].
+  destruct (read_features s1) as [[f s2]|]; [|discriminate].
+  assert (Hlift : forall chan q ff ss sn (pre : list out),
+     forall w r p2, step_auth cfg chan q ff ss sn = (w, r, p2) ->
+     r = Ok -> no_bind (pre ++ w) -> p2 = q).
+  { intros chan q ff ss sn pre w r p2 E Hok Hn.
+    pose proof (auth_nobind cfg chan q ff ss sn) as Ha.
+    unfold res, outs, pst in Ha. rewrite E in Ha. cbn [fst snd] in Ha.
+    apply Ha; [exact Hok|].
+    intros x i Hin. apply (Hn x i). rewrite reqs_app. apply in_or_app. right. exact Hin. }
+  destruct (f_tls f).
+  - destruct (c_insecure cfg); [|discriminate].
+    destruct (step_auth _ _ _ _ _ _) as [[w r] p2] eqn:E. unfold res, outs, pst. cbn [fst snd].
+    intros Hok Hn. rewrite (Hlift _ _ _ _ _ _ _ _ _ E Hok Hn). exists false, false. reflexivity.
+  - destruct (read_proceed s2) as [s3|]; [|destruct (c_insecure cfg); discriminate].
+    destruct tls; [|destruct (c_insecure cfg); discriminate].
+    destruct (read_header s3) as [[id1 s4]|]; [|discriminate].
+    destruct (read_features s4) as [[f1 s5]|]; [|discriminate].
+    destruct (step_auth _ _ _ _ _ _) as [[w r] p2] eqn:E. unfold res, outs, pst. cbn [fst snd].
+    intros Hok Hn. rewrite (Hlift _ _ _ _ _ _ _ _ _ E Hok Hn). exists true, true. reflexivity.
+  - destruct (read_proceed s2) as [s3|]; [|destruct (c_insecure cfg); discriminate].
+    destruct tls; [|destruct (c_insecure cfg); discriminate].
+    destruct (read_header s3) as [[id1 s4]|]; [|discriminate].
+    destruct (read_features s4) as [[f1 s5]|]; [|discriminate].
+    destruct (step_auth _ _ _ _ _ _) as [[w r] p2] eqn:E. unfold res, outs, pst. cbn [fst snd].
+    intros Hok Hn. rewrite (Hlift _ _ _ _ _ _ _ _ _ E Hok Hn). exists true, true. reflexivity.
 Qed.
